@@ -44,6 +44,37 @@ def gen(tier, rng):
         a = [rng.choice([big, -big, rng.randint(-big, big)]) for _ in range(256)]
         b = [rng.choice([big, -big, rng.randint(-big, big)]) for _ in range(256)]
         out.append(Case("poly_pointwise", "-", [a, b], ["in_domain", "extreme", "pw"]))
+    # the output polynomial is fully written whatever it held before, also where an input coefficient is 0
+    for _ in range(6 if tier == "quick" else 200):
+        a = [0 if rng.random() < 0.3 else rng.randint(-big, big) for _ in range(256)]
+        b = [0 if rng.random() < 0.3 else rng.randint(-big, big) for _ in range(256)]
+        dirty = [rng.randint(-Q, Q) or 1 for _ in range(256)]
+        out.append(Case("poly_pointwise_dirty", "-", [a, b, dirty], ["in_domain", "extreme", "pw", "dirty-output"]))
+    # accumulation through the crate's own reused temporary: NTT-domain inputs with exact zeros
+    for lv in ("lvl2", "lvl3", "lvl5"):
+        L = {"lvl2": 4, "lvl3": 5, "lvl5": 7}[lv]
+        for _ in range(3 if tier == "quick" else 60):
+            u = [0 if rng.random() < 0.3 else rng.randint(0, Q - 1) for _ in range(256 * L)]
+            v = [0 if rng.random() < 0.3 else rng.randint(-big, big) for _ in range(256 * L)]
+            out.append(Case("l_pointwise_acc", lv, [u, v], ["in_domain", "extreme", "acc-with-zeros"]))
+    # monomials that drive a Montgomery reduction onto the input whose low 32 bits times q^-1 is exactly -2^31 (found by
+    # simulating the transform; committed corpus) -- a negation or abs of that intermediate overflows only there
+    import json, os
+    cp = os.path.join(os.path.dirname(os.path.dirname(os.path.dirname(os.path.abspath(__file__)))), "corpus", "c13_low32_min_probes.json")
+    probes = json.load(open(cp))
+    for pth, c in probes["fwd"]:
+        a = [0] * 256; a[pth] = c
+        out.append(Case("ntt_ntt", "-", [a], ["in_domain", "basis", "fwd", "low32-min-probe"]))
+        a2 = [rng.randint(-1000, 1000) for _ in range(256)]; a2[pth] = c
+        out.append(Case("poly_ntt", "-", [a2], ["in_domain", "random", "fwd", "low32-min-probe"]))
+    for pth, c in probes["inv"]:
+        a = [0] * 256; a[pth] = c
+        out.append(Case("ntt_invntt", "-", [a], ["in_domain", "basis", "inv", "low32-min-probe"]))
+    # kernel the transforms stand on: montgomery_reduce at the wrap boundaries of its 32-bit intermediate
+    for k in list(range(-6, 7)) + [rng.randrange(-(1 << 21), 1 << 21) for _ in range(40)]:
+        for d in (-1, 0, 1):
+            out.append(Case("montgomery_reduce", "-", [k * (1 << 32) + (1 << 31) + d], ["in_domain", "kernel-dependency"]))
+            out.append(Case("montgomery_reduce", "-", [k * (1 << 32) + d], ["in_domain", "kernel-dependency"]))
     # out-of-domain: overflow must show as a panic in the checked build and in the model alike
     out.append(Case("ntt_ntt", "-", [[(1 << 31) - 1] * 256], ["overflow"], skip_release=True))
     out.append(Case("ntt_invntt", "-", [[(1 << 30)] * 256], ["overflow"], skip_release=True))
@@ -81,6 +112,17 @@ def nontrivial(c, out):
 
 def oracle(c, outs):
     if "in_domain" not in c.tags:
+        return None
+    if c.fn == "montgomery_reduce":
+        a, r = int(c.args[0]), outs[0]
+        return None if ((r << 32) - a) % Q == 0 and -Q < r < Q else "montgomery_reduce(%d) = %d" % (a, r)
+    if c.fn == "l_pointwise_acc":
+        u = [int(x) for x in c.args[0][1:].split(",")]; v = [int(x) for x in c.args[1][1:].split(",")]
+        L = len(u) // 256
+        for i in range(256):
+            s = sum(u[j * 256 + i] * v[j * 256 + i] for j in range(L))
+            if (outs[0][i] * MONT - s) % Q:
+                return "l_pointwise_acc coefficient %d is not the sum of the pointwise products" % i
         return None
     r = outs[0]
     a = [int(x) for x in c.args[0][1:].split(",")]
